@@ -196,7 +196,7 @@ impl Read for ClientEnd {
                 return Ok(0);
             }
         }
-        if cfg.eintr_read > 0 && ctx.chance("eintr_r", cfg.eintr_read, 16) {
+        if cfg.eintr_read > 0 && ctx.net_chance("eintr_r", cfg.eintr_read, 16) {
             ctx.fault("eintr_read");
             ctx.shape_op(3, 0);
             return Err(io::Error::new(ErrorKind::Interrupted, "sim: EINTR"));
@@ -214,7 +214,7 @@ impl Read for ClientEnd {
             ReadMode::Whole => n,
             ReadMode::Cap(k) => n.min((*k).max(1)),
             ReadMode::Random => {
-                let v = ctx.choose("rd", n as u64) as usize;
+                let v = ctx.net_choose("rd", n as u64) as usize;
                 if v == 0 { n } else { v }
             }
             ReadMode::AtOffsets(offs) => {
@@ -284,12 +284,12 @@ impl Write for ClientEnd {
             if w.server_rst {
                 return Err(io::Error::new(ErrorKind::BrokenPipe, "sim: peer reset"));
             }
-            if cfg.eintr_write > 0 && ctx.chance("eintr_w", cfg.eintr_write, 16) {
+            if cfg.eintr_write > 0 && ctx.net_chance("eintr_w", cfg.eintr_write, 16) {
                 ctx.fault("eintr_write");
                 ctx.shape_op(4, 0);
                 return Err(io::Error::new(ErrorKind::Interrupted, "sim: EINTR"));
             }
-            if cfg.zero_write > 0 && ctx.chance("zero_w", cfg.zero_write, 16) {
+            if cfg.zero_write > 0 && ctx.net_chance("zero_w", cfg.zero_write, 16) {
                 ctx.fault("zero_write");
                 ctx.shape_op(5, 0);
                 return Ok(0);
@@ -298,7 +298,7 @@ impl Write for ClientEnd {
                 WriteMode::Whole => buf.len(),
                 WriteMode::Cap(k) => buf.len().min((*k).max(1)),
                 WriteMode::Random => {
-                    let v = ctx.choose("wr", buf.len() as u64) as usize;
+                    let v = ctx.net_choose("wr", buf.len() as u64) as usize;
                     if v == 0 { buf.len() } else { v }
                 }
             };
@@ -318,7 +318,7 @@ impl Write for ClientEnd {
             ctx.ev_raw("c2s.write", || format!("{} of {}", m, buf.len()));
             n = m;
         }
-        let eager = cfg.eager > 0 && self.ctx.borrow_mut().chance("eager", cfg.eager, 16);
+        let eager = cfg.eager > 0 && self.ctx.borrow_mut().net_chance("eager", cfg.eager, 16);
         if eager {
             self.pump_peer();
         }
